@@ -110,67 +110,99 @@ static void ev_tok(int r, const char *t, int n, int sc, int line, int bol);
 static int g_argc; static char **g_argv; static int g_next;
 """
 
+# argv: [-a|-r] file... [-- file...]...   files of one session are chained by yywrap; after yylex returned 0 the
+# next session is started by plain assignment to yyin (-a) or by yyrestart (-r)
+COMMON_MAIN = r"""
+static int g_mode;
+static int next_file(void) { if (g_next < g_argc && strcmp(g_argv[g_next], "--") != 0) return g_next++; return -1; }
+static int next_session(void) { if (g_next < g_argc && strcmp(g_argv[g_next], "--") == 0) { g_next++; return 1; } return 0; }
+"""
+
 MAIN = {
-    'nr': r"""
+    'nr': COMMON_MAIN + r"""
 int yywrap(void)
 {
-    if (g_next < g_argc) { FILE *f = fopen(g_argv[g_next++], "rb"); if (!f) exit(2); yyin = f; return 0; }
+    int k = next_file();
+    if (k >= 0) { FILE *f = fopen(g_argv[k], "rb"); if (!f) exit(2); yyin = f; return 0; }
     return 1;
 }
 int main(int argc, char **argv)
 {
-    int v;
-    g_argc = argc; g_argv = argv; g_next = 2;
-    yyin = fopen(argv[1], "rb");
+    int v, k;
+    g_argc = argc; g_argv = argv; g_next = 2; g_mode = argv[1][1];
+    k = next_file();
+    yyin = k >= 0 ? fopen(argv[k], "rb") : fopen("/dev/null", "rb");
     if (!yyin) return 2;
-    while ((v = yylex()) != 0) printf("R %d\n", v);
-    printf("R 0\n");
+    for (;;) {
+        while ((v = yylex()) != 0) printf("R %d\n", v);
+        printf("R 0\n");
+        if (!next_session()) break;
+        k = next_file();
+        { FILE *f = k >= 0 ? fopen(argv[k], "rb") : fopen("/dev/null", "rb"); if (!f) return 2;
+          if (g_mode == 'r') yyrestart(f); else yyin = f; }
+    }
     fflush(stdout);
     return 0;
 }
 """,
-    'r': r"""
+    'r': COMMON_MAIN + r"""
 int yywrap(yyscan_t s)
 {
-    if (g_next < g_argc) { FILE *f = fopen(g_argv[g_next++], "rb"); if (!f) exit(2); yyset_in(f, s); return 0; }
+    int k = next_file();
+    if (k >= 0) { FILE *f = fopen(g_argv[k], "rb"); if (!f) exit(2); yyset_in(f, s); return 0; }
     return 1;
 }
 int main(int argc, char **argv)
 {
-    int v; yyscan_t s; FILE *f;
-    g_argc = argc; g_argv = argv; g_next = 2;
-    f = fopen(argv[1], "rb");
+    int v, k; yyscan_t s; FILE *f;
+    g_argc = argc; g_argv = argv; g_next = 2; g_mode = argv[1][1];
+    k = next_file();
+    f = k >= 0 ? fopen(argv[k], "rb") : fopen("/dev/null", "rb");
     if (!f) return 2;
     if (yylex_init(&s)) return 3;
     yyset_in(f, s);
-    while ((v = yylex(s)) != 0) printf("R %d\n", v);
-    printf("R 0\n");
+    for (;;) {
+        while ((v = yylex(s)) != 0) printf("R %d\n", v);
+        printf("R 0\n");
+        if (!next_session()) break;
+        k = next_file();
+        f = k >= 0 ? fopen(argv[k], "rb") : fopen("/dev/null", "rb"); if (!f) return 2;
+        if (g_mode == 'r') yyrestart(f, s); else yyset_in(f, s);
+    }
     fflush(stdout);
     yylex_destroy(s);
     return 0;
 }
 """,
-    'cxx': r"""
+    'cxx': COMMON_MAIN + r"""
 int yyFlexLexer::yywrap()
 {
-    if (g_next < g_argc) { std::ifstream *f = new std::ifstream(g_argv[g_next++], std::ios::binary); if (!*f) exit(2); switch_streams(f, 0); return 0; }
+    int k = next_file();
+    if (k >= 0) { std::ifstream *f = new std::ifstream(g_argv[k], std::ios::binary); if (!*f) exit(2); switch_streams(f, 0); return 0; }
     return 1;
 }
 int main(int argc, char **argv)
 {
-    int v;
-    g_argc = argc; g_argv = argv; g_next = 2;
-    std::ifstream in(argv[1], std::ios::binary);
-    if (!in) return 2;
-    yyFlexLexer lexer(&in, 0);
-    while ((v = lexer.yylex()) != 0) printf("R %d\n", v);
-    printf("R 0\n");
+    int v, k;
+    g_argc = argc; g_argv = argv; g_next = 2; g_mode = argv[1][1];
+    k = next_file();
+    std::ifstream *in = new std::ifstream(k >= 0 ? argv[k] : "/dev/null", std::ios::binary);
+    if (!*in) return 2;
+    yyFlexLexer lexer(in, 0);
+    for (;;) {
+        while ((v = lexer.yylex()) != 0) printf("R %d\n", v);
+        printf("R 0\n");
+        if (!next_session()) break;
+        k = next_file();
+        std::ifstream *f = new std::ifstream(k >= 0 ? argv[k] : "/dev/null", std::ios::binary); if (!*f) return 2;
+        if (g_mode == 'r') lexer.yyrestart(f); else lexer.switch_streams(f, 0);
+    }
     fflush(stdout);
     return 0;
 }
 """,
 }
-MAIN['c99'] = r"""
+MAIN['c99'] = COMMON_MAIN + r"""
 static ssize_t echo_write(void *c, const char *buf, size_t n)
 {
     yyscan_t s = (yyscan_t) g_scanner;
@@ -179,24 +211,32 @@ static ssize_t echo_write(void *c, const char *buf, size_t n)
 }
 int yywrap(yyscan_t s)
 {
-    if (g_next < g_argc) { FILE *f = fopen(g_argv[g_next++], "rb"); if (!f) exit(2); yyset_in(f, s); return 0; }
+    int k = next_file();
+    if (k >= 0) { FILE *f = fopen(g_argv[k], "rb"); if (!f) exit(2); yyset_in(f, s); return 0; }
     return 1;
 }
 int main(int argc, char **argv)
 {
-    int v; yyscan_t s; FILE *f;
+    int v, k; yyscan_t s; FILE *f;
     cookie_io_functions_t io = { 0, echo_write, 0, 0 };
     FILE *o = fopencookie(NULL, "w", io);
-    g_argc = argc; g_argv = argv; g_next = 2;
-    f = fopen(argv[1], "rb");
+    g_argc = argc; g_argv = argv; g_next = 2; g_mode = argv[1][1];
+    k = next_file();
+    f = k >= 0 ? fopen(argv[k], "rb") : fopen("/dev/null", "rb");
     if (!f || !o) return 2;
     setvbuf(o, NULL, _IONBF, 0);
     if (yylex_init(&s)) return 3;
     g_scanner = s;
     yyset_in(f, s);
     yyset_out(o, s);
-    while ((v = yylex(s)) != 0) printf("R %d\n", v);
-    printf("R 0\n");
+    for (;;) {
+        while ((v = yylex(s)) != 0) printf("R %d\n", v);
+        printf("R 0\n");
+        if (!next_session()) break;
+        k = next_file();
+        f = k >= 0 ? fopen(argv[k], "rb") : fopen("/dev/null", "rb"); if (!f) return 2;
+        if (g_mode == 'r') yyrestart(f, s); else yyset_in(f, s);
+    }
     fflush(stdout);
     yylex_destroy(s);
     return 0;
@@ -309,22 +349,27 @@ def eval_stream_case(flex, workdir, case):
         pass
     queries = []
     runs = []
-    for si, sources in enumerate(case['sources']):
-        paths = []
-        for j, w in enumerate(sources):
-            pth = os.path.join(workdir, "in%d_%d.bin" % (si, j))
-            with open(pth, "wb") as f:
-                f.write(bytes(w))
-            paths.append(pth)
-        rc, out, err = run([os.path.join(workdir, "s.exe")] + paths, timeout=20)
+    allruns = case.get('runs') or [{'sessions': [srcs], 'mode': 'a'} for srcs in case['sources']]
+    for si, rn in enumerate(allruns):
+        args = ["-" + rn.get('mode', 'a')]
+        for sj, sess in enumerate(rn['sessions']):
+            if sj:
+                args.append("--")
+            for j, w in enumerate(sess):
+                pth = os.path.join(workdir, "in%d_%d_%d.bin" % (si, sj, j))
+                with open(pth, "wb") as f:
+                    f.write(bytes(w))
+                args.append(pth)
+        rc, out, err = run([os.path.join(workdir, "s.exe")] + args, timeout=20)
         evs = parse_events(out, bol_obs)
         errs = err.decode(errors="replace")
         for msg, code in FATAL_MSGS:
             if msg in errs:
                 evs.append(('F', code))
         runs.append((rc, evs, errs[:200]))
-        total = sum(len(w) for w in sources)
-        queries.append("(stream %d (%s))" % (2 * total + 50, " ".join("(" + " ".join(str(b) for b in w) + ")" for w in sources)))
+        total = sum(len(w) for sess in rn['sessions'] for w in sess)
+        queries.append("(sessions %d (%s))" % (2 * total + 50, " ".join(
+            "(" + " ".join("(" + " ".join(str(b) for b in w) + ")" for w in sess) + ")" for sess in rn['sessions'])))
     sx = "(case %s\n%s\n(bolobs %d)\n(queries (%s)))\n" % (scanner.sx_program(prog), stream_sx(case['acts'], case['eofs'], case['lineno']),
                                                           1 if bol_obs else 0, "\n".join(queries))
     rc, out, err = scanner.run_driver(sx, workdir, timeout=120)
@@ -335,7 +380,8 @@ def eval_stream_case(flex, workdir, case):
         res['problems'].append(('driver-error', "rc=%s %s" % (rc, err[:300])))
         return res
     chunks = out.split("END\n")
-    for si, (sources, (rrc, revs, rerr)) in enumerate(zip(case['sources'], runs)):
+    for si, (rn, (rrc, revs, rerr)) in enumerate(zip(allruns, runs)):
+        sources = [w for sess in rn['sessions'] for w in sess]
         mevs = parse_events(chunks[si].encode(), bol_obs) if si < len(chunks) else []
         fatal_expected = any(e[0] == 'F' for e in mevs)
         ok = (revs == mevs) or (fatal_expected and revs[:len(mevs)] == mevs)
@@ -351,15 +397,19 @@ def eval_stream_case(flex, workdir, case):
             k = 0
             while k < len(revs) and k < len(mevs) and revs[k] == mevs[k]:
                 k += 1
-            res['problems'].append(('event-mismatch', "inputs=%s rc=%s at event %d: real=%s model=%s stderr=%s" % (
-                [bytes(w).hex() for w in sources], rrc, k, revs[k:k + 3], mevs[k:k + 3], rerr[:100])))
+            res['problems'].append(('event-mismatch', "sessions=%s mode=%s rc=%s at event %d: real=%s model=%s stderr=%s" % (
+                [[bytes(w).hex() for w in sess] for sess in rn['sessions']], rn.get('mode'), rrc, k, revs[k:k + 3], mevs[k:k + 3], rerr[:100])))
     return res
 
 
 # ------------------------------------------------------------------ generation
 def gen_stream_case(rng, cid, focus, backend='nr', flex_opts=None, lineno=None, nsources=None):
     """focus: subset of {'stack','edit','eof','lineno','wrap'} steering which operations appear."""
-    prog = rulesets.gen_program(rng, trailing=False, max_scs=2, csize=256)
+    prog = rulesets.gen_program(rng, trailing=('trail' in focus), max_scs=2, csize=256)
+    # the stream machine splits fixed-length trailing context only: drop the context of rules flex treats as variable
+    for r in prog['rules']:
+        if r.get('trail') not in (None, '$') and patgen.fixed_len(r['head']) is None and patgen.fixed_len(r['trail']) is None:
+            r['trail'] = None
     nsc = 1 + len(prog.get('scs', []))
     if 'stack' in focus and nsc == 1:
         prog['scs'] = [("SC2", rng.chance(50)), ("SC3", rng.chance(50))]
@@ -438,7 +488,7 @@ def gen_stream_case(rng, cid, focus, backend='nr', flex_opts=None, lineno=None, 
             elif k == 'return':
                 ops.append(('return', rng.rng(1, 9)))
                 break
-        if rng.chance(2):
+        if rng.chance(2) and 'post' not in focus:
             ops.append(('terminate',))
         if ops:
             acts[i + 1] = ops
@@ -465,5 +515,22 @@ def gen_stream_case(rng, cid, focus, backend='nr', flex_opts=None, lineno=None, 
     opts = list(flex_opts) if flex_opts is not None else []
     if not any(o in ("-7", "-8") for o in opts):
         opts.append("-8")
-    return {'id': cid, 'prog': prog, 'acts': acts, 'eofs': eofs, 'lineno': lineno, 'backend': backend, 'flex_opts': opts,
+    runs = None
+    if 'post' in focus:
+        # after yylex returned 0 at the end of input the caller supplies a new source and calls yylex again
+        runs = []
+        for k in range(3):
+            nsess = rng.rng(2, 3)
+            sess = []
+            for j in range(nsess):
+                ins = rulesets.gen_inputs(prog, rng.fork("post%d_%d" % (k, j)), count=rng.weighted([(1, 4), (2, 2)]), maxlen=rng.pick([10, 40, 100]))
+                if rng.chance(40) and ins[-1]:
+                    # end inside a token that needs look-ahead: cut the last source in the middle of a rule's match
+                    r = rng.pick(prog['rules'])
+                    import scanner as _sc
+                    m = _sc.sample(r['head'], rng, prog.get('caseins', False), False, 256)
+                    ins[-1] = ins[-1] + m[:max(1, len(m) - 1)]
+                sess.append(ins)
+            runs.append({'sessions': sess, 'mode': rng.pick(['a', 'r'])})
+    return {'id': cid, 'runs': runs, 'prog': prog, 'acts': acts, 'eofs': eofs, 'lineno': lineno, 'backend': backend, 'flex_opts': opts,
             'sources': sources, 'seed': rng.s, 'focus': sorted(focus), 'text': ''}
